@@ -29,7 +29,14 @@ THEOREMS = ['C20.scope_injective', 'C20.scope_stable', 'C20.chain_claims', 'C20.
             # not proved: vlib/try_kdef.py compares specification / generated text / real code on generated several-module definitions)
             'C20.multi_spec_is_the_one_module_spec', 'C20.kore_definition_text_is_the_model_multi_one', 'C20.k_pipeline_text_is_the_model_multi_one',
             'C20.multi_spec_one_counter', 'C20.multi_spec_signature_of_all_modules', 'C20.ExampleMulti.diamond_ok', 'C20.ExampleMulti.island_ok',
-            'C20.ExampleMulti.trace_ok', 'C20.ExampleMulti.refusals']
+            'C20.ExampleMulti.trace_ok', 'C20.ExampleMulti.refusals',
+            # towards the general several-module tie (Props/C20e.lean, KDefTieM2-7.lean): KModule.modules = the import closure, the own-then-closure
+            # searches, LanguageSemantics.modules / get_module under any valid set order, one sentence and the sentence loop on a store of k
+            # modules = the specification's step, the invariant across modules (the outer module loop and the final queries are not closed)
+            'C20.kmodule_modules_is_closure', 'C20.closure_is_transitive', 'C20.own_then_closure_search_sort', 'C20.own_then_closure_search_symbol',
+            'C20.own_then_closure_search_axiom', 'C20.all_modules_under_any_set_order', 'C20.get_module_under_any_set_order',
+            'C20.ls_get_sort_under_any_set_order', 'C20.ls_get_symbol_under_any_set_order', 'C20.sentence_on_k_module_store',
+            'C20.module_sentences_text_is_spec', 'C20.invariant_across_modules', 'C20.Example2.tie']
 
 
 def unhex(h):
@@ -38,7 +45,7 @@ def unhex(h):
 
 def run(rep):
     rng = random.Random(rep.seed * 1000003 + 20)
-    ok, detail = core.proof_gate(rep, 'Pi2.Props.C20d', THEOREMS)
+    ok, detail = core.proof_gate(rep, 'Pi2.Props.C20e', THEOREMS)
     core.rust_build()
     quick = rep.tier == 'quick'
     findings = []
